@@ -120,6 +120,9 @@ def build(drv, tags='verif', race=False):
         sys.path.insert(0, os.path.join(VERIF, 'lib'))
         import gomod
         gomod.gen(REPO, harness)
+        if REPO != '/repo':
+            os.makedirs(os.path.join(harness, '.bin'), exist_ok=True)
+            out = os.path.join(harness, '.bin', os.path.basename(out))
     finally:
         fcntl.flock(lock, fcntl.LOCK_UN)
         lock.close()
